@@ -96,6 +96,12 @@ def space(tier, seed):
         for day in ([2019, 11, 3], [2020, 3, 8], [2019, 7, 1]):
             for ss in ([dict(sess("PS-A", 0, 7, "large"), sid="ev0")], [dict(sess("PS-B", 1, 4, "large"), sid="ev0"), dict(sess("PS-C", 3, 5, "small"), sid="ev1")]):
                 items.append({"net": "N2", "sessions": ss, "k": 1, "recompute": [], "inner": "max2", "sched": INNER["max2"], "period": 30, "start": [tzkind, "America/Los_Angeles"] + day})
+    # periods that are not a whole number of seconds (7.5 s) or whose length in seconds is not exact in binary (4.1 min,
+    # 8.45 min): the scheduler's clock is start + t x period all the same
+    for per in (0.125, 4.1, 8.45):
+        for ss in ([dict(sess("PS-A", 0, 7, "large"), sid="ev0")], [dict(sess("PS-B", 1, 4, "large"), sid="ev0"), dict(sess("PS-C", 3, 6, "large"), sid="ev1")]):
+            for k in (None, 1, 2):
+                items.append({"net": "N2", "sessions": ss, "k": k, "recompute": [], "inner": "max2", "sched": INNER["max2"], "period": per})
     if thorough:
         pool3 = [sess(st, a, sy, en) for st in ("PS-A", "PS-B", "PS-C") for a in (0, 1) for sy in (1, 3) for en in ("large", "small")]
         for ss in S.session_subsets(pool3, 3, 3):
@@ -142,11 +148,13 @@ def start_of(scn):
 def same_instant(a, b):
     if (a.tzinfo is None) != (b.tzinfo is None):
         return False
+    # equal up to a millisecond: a period that is not a whole number of microseconds leaves the last digit of the
+    # product to the order of the float operations, which the property does not fix
     if a.tzinfo is None:
-        return a == b
+        return abs((a - b).total_seconds()) <= 1e-3
     from datetime import timezone
 
-    return a.astimezone(timezone.utc) == b.astimezone(timezone.utc)
+    return abs((a.astimezone(timezone.utc) - b.astimezone(timezone.utc)).total_seconds()) <= 1e-3
 
 
 def arr(x):
